@@ -685,6 +685,20 @@ class Gen:
             src += f".Where(lambda {v}: {self.pred(v, [], 1)})"
             self.q.feat.add("event_where")
             self.q.ops += 1
+        if "selectmany_inside" in self.allow and self.r.random() < 0.18:
+            # one row per object, built INSIDE the SelectMany lambda: the event stays in scope, so a column may be a
+            # terminal (First/Count/Sum ...) over another collection of the event evaluated once per outer object
+            v = self.q.var("e")
+            self.cur_event = v
+            s = self.objseq(v, [], 1)
+            o = self.q.var("j")
+            n = self.r.choice([1, 2, 2, 3])
+            cols = [self.scalar(v, [o], self.r.choice([1, 2]), obj=o)[0] for _ in range(n)]
+            row = cols[0] if (n == 1 and self.r.random() < 0.5) else "(" + ", ".join(cols) + ("," if n == 1 else "") + ")"
+            src += f".SelectMany(lambda {v}: {s}.Select(lambda {o}: {row}))"
+            self.q.feat.add("selectmany_inside")
+            self.q.ops += 2
+            return src, self.q
         if self.r.random() < 0.3:
             v = self.q.var("e")
             self.cur_event = v
@@ -736,6 +750,11 @@ class Gen:
             v = self.q.var("x")
             return f"{o}.vals().Where(lambda {v}: {v} > 0).Count()", "i"
         if k < 0.9:
+            if "selectmany_inside" in self.allow and "first" in self.allow and self.r.random() < 0.4:
+                # a First() over a sub-collection of the row's own object
+                self.q.feat.add("first")
+                v = self.q.var("x")
+                return self.r.choice([f"{o}.vals().First()", f"{o}.vals().Where(lambda {v}: {v} > 1).First()"]), "d"
             return f"{o}.hits().Sum()", "i"
         a, _ = self.obj_scalar(o, d - 1)
         b, _ = self.obj_scalar(o, d - 1)
